@@ -87,6 +87,7 @@ def rules(chk, db):
         rwrules.check_buffer_class(chk, db, rec, ids, guard_required=rec != 'nop::BufferWriter')
     c16.rules(chk, db, prefix='BW.', only={'nop::BoundedWriter'})
     tablerules.entry_size(chk, db, 'TE')
+    tablerules.rules(chk, db, {'TW'})       # Size(table) against the hash / count / entries its writer emits
     # the constexpr writer's capacity check admits length * sizeof(T) bytes: each element must then go through the lane of sizeof(T)
     from . import c17
     chk.rule('L', 'ConstexprBufferWriter stores each element of a bulk Write through the byte lane of exactly sizeof(element) bytes', minimum=8)
